@@ -6,8 +6,10 @@ META = {
                     "(the code under test only uses fs->blocksize and EXT2_BLOCK_SIZE_BITS)",
                     "punch_ind: block numbers are fixed distinct tokens, presence of each slot symbolic; slots >= K "
                     "of every indirect block are zero"],
-    "outside": ["histories are covered only through the inductive step on the handle invariant (fileio); the mapping "
-                "layer itself (bmap.c, extent.c: ext2fs_extent_set_bmap, node split/merge, fix_parents) is not encoded",
+    "outside": ["histories are covered only through the inductive step on the handle invariant (fileio); of the mapping "
+                "layer only bmap.c is encoded (bmap_ind: block-mapped lookup/BMAP_SET; bmap_cluster: extent_bmap + "
+                "implied_cluster_alloc over a table); BMAP_ALLOC through indirect blocks and extent.c "
+                "(ext2fs_extent_set_bmap, node split/merge, fix_parents) are not encoded",
                 "ext2fs_punch_extent's extent-tree editing (only its block-release helper punch_extent_blocks is decided)",
                 "allocator (alloc.c, alloc_stats.c bitmap/group accounting), fallocate.c, implied_cluster_alloc, mkjournal.c",
                 "inline_data.c itself (get/set/expand are stubs written from its code), xattr storage",
@@ -43,6 +45,26 @@ def fileio_cfgs():
     return c
 
 HARNESSES = [
+    dict(name="bmap_cluster", src="bmap_cluster.c",
+         funcs=["ext2fs_bmap2", "extent_bmap", "implied_cluster_alloc", "ext2fs_iblk_add_blocks"],
+         extra_src=["lib/ext2fs/i_block.c"],
+         configs=[{}], unwind=6,
+         unwindset=main_loops(12, 14) + ["vf_inv.0:14", "vf_inv.1:14", "stub_extent_goto.0:14", "stub_extent_get.0:14",
+                                          "stub_extent_set_bmap.0:14", "implied_cluster_alloc.0:6"],
+         backends=["default", "kissat"],
+         bound="bigalloc ratio 4, extent-mapped inode; window of 3 logical clusters (12 blocks) at any cluster-aligned "
+               "logical offset < 2^31; mapping table symbolic under the cluster invariant; BMAP_ALLOC of any block of the window"),
+    dict(name="bmap_ind", src="bmap_ind.c",
+         funcs=["ext2fs_bmap2", "block_ind_bmap", "block_dind_bmap", "block_tind_bmap",
+                "ext2fs_file_block_offset_too_big"],
+         extra_src=["lib/ext2fs/i_block.c"],
+         configs=[{"OP": 1, "ABITS": 2}, {"OP": 2, "ABITS": 2}]
+                 + [{"OP": 1, "ABITS": 8, "LEVEL": lv, "_tier": "thorough",
+                     "_unwindset": main_loops(16, 514) + ["vf_read_blk.0:258", "vf_write_blk.0:258"]} for lv in (3, 2, 1, 0, 4)],
+         unwind=6, unwindset=main_loops(16, 16) + ["vf_read_blk.0:6", "vf_write_blk.0:6"],
+         backends=["default", "kissat"],
+         bound="quick: 4 addresses per block (fs->blocksize 16), lookup and BMAP_SET; thorough: 1 KiB blocks, lookup, one query per level; logical block: all 2^64 values; i_block[0..11] any value, i_block[12..14] absent or 1..7; "
+               "indirect block contents functional (slot j of block b = b*256+j+16) with one symbolic hole; lookup and BMAP_SET"),
     dict(name="punch_ext_blocks", src="punch_ext_blocks.c",
          funcs=["punch_extent_blocks", "ext2fs_blocks_count"],
          extra_src=["lib/ext2fs/blknum.c"],
